@@ -61,7 +61,7 @@ CLAIMED["C07"] = {
             "before any handler runs; (a) visitor completeness of the capture walk (every code-bearing AST field is visited by dependencies()); (a') the capture filter: get_net_dependencies raises a "
             "dependency's depth only after comparing it with the block's supplies; every keep/drop comparison in it and in the hand-written "
             "net_dependencies impls compares Dependency values, never names alone, and Dependency == Dependency is true exactly when names and "
-            "types are equal (truth table); a name resolves in the running function's own frames first, then in the closure's captures, and only then in its callers' frames (lexical scoping; `load` and `make_function` agree). "
+            "types are equal (truth table); nothing in the 58 bodies of the capture walk files dependencies under their name alone (no name-keyed set / map, no dedup); a name resolves in the running function's own frames first, then in the closure's captures, and only then in its callers' frames (lexical scoping; `load` and `make_function` agree). "
             "Does not decide run-time histories.",
     "technique": "static analysis: type-resolved who-may-create/who-may-call, value-origin slicing (pass-through), dominators on rustc MIR; visitor completeness over ADT fields",
     "design_ref": "DESIGN.md §5 C07",
@@ -155,7 +155,7 @@ CLAIMED["C13"] = {
             "program values occurs only inside the equality implementation); an element / entry store (ArrayPtr / MapPtr arms of HeapPrimitive::set) "
             "stores the given value on every path; each GcMap operation answers from the inner HashMap and never through another GcMap operation "
             "(contains_key through get() would read a key bound to nil as absent); every key type whose values Primitive::hash cannot hash (a map, or a list / optional "
-            "holding one: run-time table read from the Hash impl) is rejected by the key-type test of Parser::map_type (evaluated on 52 key types, including classes with such fields). (b) no lossy `as` conversion (narrowing, sign-changing, "
+            "holding one, or an object with such a field: run-time table read from the Hash impl) is rejected by the key-type test of Parser::map_type (evaluated on 52 key types, including classes with such fields); clone / map / filter return a container allocated by the call, never the receiver under another name. (b) no lossy `as` conversion (narrowing, sign-changing, "
             "float->int) of a program value in the list/map arms and in index conversion (R-CAST with a backward taint slice to a Primitive). "
             "(c) index/removal range failures are errors, not panics: decided with C17 (a) (R-PANIC: Vec::remove/insert, Index, bounds checks on "
             "program-valued indexes are dominated by a range comparison). Aliasing and contents over histories are not decided.",
@@ -204,7 +204,7 @@ CLAIMED["C03"] = {
             "(non-zero exit); (c) one guarded-by instance per typing rule the property names (19 instances: boolean conditions, annotated "
             "initialiser, re-assignment type, unary/binary operator support, unknown name, field/method existence, callable member, index "
             "support/type/output, loop bounds and step, known type name, break/continue in loop), the list-index predicate read as a table against the run-time index conversion, class-type identity "
-            "(name and declaring file), the shared return-marking and zip-length rules of C02 (d). Does not decide that the diagnostic names the "
+            "(name and declaring file), the shared return-marking and zip-length rules of C02 (d), the map key-type guard of get_output_type_from_index, and that a block's `return` statements are checked against the innermost function (the walk computing a block's starting return status, evaluated on a scripted scope stack, does not look past a void function scope). Does not decide that the diagnostic names the "
             "right source position.",
     "technique": "static analysis: def-use of Err payloads, edge-dominators (must-pass-through) and guarded-by instances over rustc MIR",
     "design_ref": "DESIGN.md §5 C03",
@@ -250,7 +250,7 @@ CLAIMED["C15"] = {
             "<rhs> load_fast fast_rev2 bin_op`). On that word: code(left) precedes code(right), each occurs exactly once, `&&`/`||` have a store_skip and "
             "`or` a jmp_not_nil between their operands; literal elements and map pairs are laid down in list order (iterator scripted with two elements); "
             "call arguments are compiled by arguments.iter() -> flat_map(compile) -> collect with no reversal; the skip count of && / || equals the number of instructions laid down after the right operand plus one; every recursive compile_depth call receives a fresh register from poll_temporary_register(), never the caller's own parking register "
-            "(a nested operand cannot overwrite a parked left operand); every statement kind lays the code of its payload down exactly once. Two known findings: compound assignment "
+            "(a nested operand cannot overwrite a parked left operand); every statement kind lays the code of its payload down exactly once; between the code of a binary operator's operands (and after each call argument) the emitted word takes the one value just computed off the operand stack (store_fast / store_skip / jmp_not_nil), because a call inside the next operand takes the whole stack as its arguments. Two known findings: compound assignment "
             "to an index / field target evaluates the right-hand side first. Not decided: jump arithmetic in general (C09), other forms of interference of later code "
             "with earlier values, argument order as seen by the callee.",
     "technique": "static analysis: abstract interpretation of the code generators' MIR to symbolic instruction sequences, order / multiplicity rules on the sequences",
